@@ -1,6 +1,7 @@
 package checks
 
 import (
+	"strconv"
 	"fmt"
 	"math/rand"
 	"sort"
@@ -205,6 +206,11 @@ func pairExpr(outer, inner string, right bool, r *rand.Rand) (gen.Expr, bool) {
 
 func c01Run(c *core.Ctx, i int) {
 	r := c.Rng
+	if i%40 == 9 { // spellings of number literals: always decimal, whatever zeros lead or trail
+		c.Cover("family", "number-literal-spellings")
+		c01Literals(c)
+		return
+	}
 	if i%40 == 19 { // operands read from globals that a later operand's call assigns
 		c.Cover("family", "operand-order-with-assignment")
 		runGenProgram(c, operandOrderProgram(r), nil, true, false)
@@ -442,4 +448,39 @@ func sp(e gen.Expr) gen.Expr {
 		return n
 	}
 	return e
+}
+
+// c01Literals: number literals are decimal numbers; leading and trailing zeros change nothing.
+func c01Literals(c *core.Ctx) {
+	r := c.Rng
+	type lit struct {
+		src string
+		val float64
+	}
+	pool := []lit{{"010", 10}, {"0755", 755}, {"007", 7}, {"08", 8}, {"019", 19}, {"010.0", 10}, {"1.50", 1.5}, {"00", 0}, {"0.50", 0.5}, {"0100", 100}, {"017", 17}, {"0012.250", 12.25},
+		{"9007199254740993", 9007199254740992}, {"0.1", 0.1}, {"100", 100}, {"0777", 777}, {"01", 1}, {"0000000012", 12}, {"12.000", 12}, {"0.000001", 0.000001}}
+	r.Shuffle(len(pool), func(a, b int) { pool[a], pool[b] = pool[b], pool[a] })
+	pool = pool[:6+r.Intn(8)]
+	var src strings.Builder
+	var want []string
+	src.WriteString("print")
+	for _, l := range pool {
+		src.WriteString(" " + l.src)
+		want = append(want, ref.FormatNum(l.val))
+	}
+	src.WriteString("\n")
+	a, b := pool[0], pool[1]
+	src.WriteString(fmt.Sprintf("print %s+%s (%s==%s) [%s %s] {k:%s}\n", a.src, b.src, a.src, ref.FormatNum(a.val), a.src, b.src, b.src))
+	wantLine2 := fmt.Sprintf("%s true [%s %s] {k:%s}", ref.FormatNum(a.val+b.val), ref.FormatNum(a.val), ref.FormatNum(b.val), ref.FormatNum(b.val))
+	text := src.String()
+	c.Event("programs", 1)
+	c.Distinct(text)
+	c.Journal(text)
+	o := plat.Run(text, plat.Opts{YieldBudget: 10000})
+	c.Event("layouts_run", 1)
+	wantEvents := []string{"print " + strconv.Quote(strings.Join(want, " ")+"\n"), "print " + strconv.Quote(wantLine2+"\n")}
+	c.Event("effects_compared", len(o.Events))
+	if o.Class != "ok" || len(o.Events) != 2 || !mon.SameText(o.Events[0], wantEvents[0]) || !mon.SameText(o.Events[1], wantEvents[1]) {
+		c.Violation("trace-differs", fmt.Sprintf("number literals: expected %v, got %s %q %v", wantEvents, o.Class, o.ErrText, o.Events), text, nil)
+	}
 }
